@@ -145,11 +145,44 @@ func layoutTE(t types.Type, te TypeEnv) []Leaf {
 	return l
 }
 
+// pseudo types of the specification language (bit-vectors)
+var pseudoTypes = map[string]*types.Named{}
+
+func pseudoType(name string) types.Type {
+	if t, ok := pseudoTypes[name]; ok {
+		return t
+	}
+	t := types.NewNamed(types.NewTypeName(0, nil, name, nil), types.Typ[types.Int], nil)
+	pseudoTypes[name] = t
+	return t
+}
+
+func pseudoSort(t types.Type) (Sort, bool) {
+	n, ok := t.(*types.Named)
+	if !ok || n.Obj().Pkg() != nil {
+		return "", false
+	}
+	switch n.Obj().Name() {
+	case "bv64":
+		return SBV64, true
+	case "bv8":
+		return SBV8, true
+	case "bv32":
+		return SBV32, true
+	case "bv1":
+		return SBV1, true
+	}
+	return "", false
+}
+
 func layout0(t types.Type, te TypeEnv, depth int) []Leaf {
 	if depth > 12 {
 		panic("layout: type too deep: " + t.String())
 	}
 	t = te.apply(t)
+	if s, ok := pseudoSort(t); ok {
+		return []Leaf{{Path: "", Sort: s, T: t}}
+	}
 	switch tt := t.(type) {
 	case *types.Alias:
 		return layout0(types.Unalias(tt), te, depth+1)
